@@ -185,6 +185,15 @@ def sizing_paths(ctx, cname):
     return ps, out
 
 
+def arrayish(t):
+    """the term is computed by array arithmetic over all assets at once (numpy arrays built from the weights, zipped back into pairs): the sizing rules, which
+    speak about one asset's scalar at a time, do not read it element by element"""
+    if t is None:
+        return False
+    return any(s_[0] == 'call' and ((s_[1][0] == 'ext' and s_[1][1] in ('numpy.fromiter', 'ARRAY', 'numpy.array', 'numpy.asarray', 'numpy.vectorize')) or s_[1] == ('meth', 'tolist'))
+               for s_ in T.subterms(t))
+
+
 def table_refute(bodies, atoms, expected, grid):
     """The sizing formula as a decision table.  `bodies` are the normal paths of the sizing loop's body (dicts with 'path' and 'quantity'); `atoms` maps the terms
     the property speaks about (equity, weight, fee estimate, price, ...) to names; `grid` is a list of {name: Fraction}; `expected(point)` is the quantity the
